@@ -193,10 +193,39 @@ def mctdh_tree(basis_list, tree_order, contract_primitive=False, contract_label=
     if isinstance(contract_label, str) and contract_label == "random":
         contract_label = [bool(rng.random() < 0.45) for _ in bl]
     kind = f"mctdh{tree_order}" + ("-label" if contract_label is not None else "-contract" if contract_primitive else "")
-    t = BasisTree.general_mctdh(list(bl), tree_order, contract_primitive=contract_primitive,
-                                contract_label=None if contract_label is None else list(contract_label))
+    lab = None if contract_label is None else list(contract_label)
+    if tree_order in (2, 3) and rng is not None and rng.random() < 0.5:
+        # the documented shorthands for orders two and three
+        ctor = BasisTree.binary_mctdh if tree_order == 2 else BasisTree.ternary_mctdh
+        t = ctor(list(bl), contract_primitive=contract_primitive, contract_label=lab)
+    else:
+        t = BasisTree.general_mctdh(list(bl), tree_order, contract_primitive=contract_primitive, contract_label=lab)
     return t, _describe(kind, t, order=order, tree_order=tree_order, contract_primitive=bool(contract_primitive),
                         contract_label=contract_label)
+
+
+def wide_tree(basis_list, rng, shuffle=False):
+    """Trees with one WIDE node (many legs): a star (one set at the centre, every other set a leaf child), a chain whose
+    middle node holds all but two of the sets, or an MCTDH tree of the order of the number of sets (one layer)."""
+    BasisTree, TreeNodeBasis, _ = _tn()
+    bl, order = _maybe_shuffled(basis_list, rng, shuffle)
+    n = len(bl)
+    style = ["star", "fat-node", "mctdh-one-layer"][int(rng.integers(0, 3))]
+    if style == "star" or n < 4:
+        style = "star"
+        root = TreeNodeBasis([bl[0]])
+        for b in bl[1:]:
+            root.add_child(TreeNodeBasis([b]))
+        t = BasisTree(root)
+    elif style == "fat-node":
+        root = TreeNodeBasis([bl[0]])
+        mid = TreeNodeBasis(list(bl[1:-1]))
+        root.add_child(mid)
+        mid.add_child(TreeNodeBasis([bl[-1]]))
+        t = BasisTree(root)
+    else:
+        t = BasisTree.general_mctdh(list(bl), max(2, n - int(rng.integers(0, 2))), contract_primitive=bool(rng.random() < 0.5))
+    return t, _describe("wide", t, order=order, style=style)
 
 
 def t3ns_tree(basis_list, rng=None, shuffle=False):
@@ -315,6 +344,8 @@ def build_tree(kind, basis_list, rng, shuffle=False, **kw):
             return mctdh_tree(basis_list, order, True, "random", rng, shuffle)
     if kind == "random":
         return random_tree(basis_list, rng, **kw)
+    if kind == "wide":
+        return wide_tree(basis_list, rng, shuffle)
     raise ValueError(kind)
 
 
